@@ -190,4 +190,89 @@ theorem sortByDegree_spec (ts : List Term) :
   have := foldl_insert_facts ts [] List.Pairwise.nil
   simpa [sortByDegree] using this
 
+
+def NoSep (c : Char) (t : Tok) : Prop := t.kind = some .operator → t.text.contains c = false
+
+theorem replaceZero_id (ts : List Tok) (h : ∀ t ∈ ts, ¬ (t.kind = some .value ∧ t.text = ['0'])) :
+    replaceZero ts = ts := by
+  induction ts with
+  | nil => rfl
+  | cons t r ih =>
+    have ht := h t (by simp)
+    have : (t.kind == some .value && t.text == ['0']) = false := by
+      cases hk : (t.kind == some TKind.value) <;> cases hx : (t.text == ['0']) <;> simp_all
+    simp only [replaceZero, this, Bool.false_eq_true, if_false, ih (fun u hu => h u (by simp [hu]))]
+
+theorem insertOneAfter_id (b : Bool) (c : Char) (ts : List Tok) (h : ∀ t ∈ ts, NoSep c t) :
+    insertOneAfter b c ts = ts := by
+  induction ts with
+  | nil => rfl
+  | cons t r ih =>
+    have ht := h t (by simp)
+    have : (t.kind != some .operator || !t.text.contains c) = true := by
+      by_cases hk : t.kind = some .operator
+      · have hh := ht hk
+        simp only [hk, bne_self_eq_false, hh, Bool.not_false, Bool.or_true]
+      · simp [hk]
+    simp only [insertOneAfter, this, if_true, ih (fun u hu => h u (by simp [hu]))]
+
+theorem findRhsAux_none (ts : List Tok) (h : ∀ t ∈ ts, ¬ (t.kind = some .operator ∧ t.text = ['~'])) :
+    ∀ (i : Nat) (ctx : List Char), findRhsAux ts i ctx = none := by
+  induction ts with
+  | nil => intro i ctx; rfl
+  | cons t r ih =>
+    intro i ctx
+    have ihr := ih (fun u hu => h u (by simp [hu]))
+    have ht := h t (by simp)
+    unfold findRhsAux
+    by_cases hc : (t.kind == some .context) = true
+    · simp only [hc, if_true]
+      by_cases ho : (t.text == ['('] || t.text == ['[']) = true
+      · simp only [ho, if_true]; exact ihr _ _
+      · simp only [ho, Bool.false_eq_true, if_false]
+        cases ctx with
+        | nil => rfl
+        | cons top rest =>
+          simp only
+          split <;> (split <;> first | rfl | exact ihr _ _)
+    · simp only [hc, Bool.false_eq_true, if_false]
+      by_cases he : (!ctx.isEmpty) = true
+      · simp only [he, if_true]; exact ihr _ _
+      · simp only [he, Bool.false_eq_true, if_false]
+        by_cases hop : (t.kind == some .operator && t.text == ['~']) = true
+        · exfalso
+          apply ht
+          simp only [Bool.and_eq_true, beq_iff_eq] at hop
+          exact hop
+        · simp only [hop, Bool.false_eq_true, if_false]; exact ihr _ _
+
+/-- Token-level form of "an implicit intercept on every right-hand part": for a one-sided formula
+whose operator tokens contain neither `~` nor `|` and which has no literal `0`, the parser's token
+rewriting is exactly "prepend `1 +`" (followed by the merging of adjacent sign tokens) -/
+theorem intercept_plain (ts : List Tok) (hne : ts ≠ [])
+    (h1 : ∀ t ∈ ts, NoSep '~' t) (h2 : ∀ t ∈ ts, NoSep '|' t)
+    (hz : ∀ t ∈ ts, ¬ (t.kind = some .value ∧ t.text = ['0'])) :
+    (interceptTokens true ts).1 = mergeSigns (tokOne :: tokPlus :: ts) := by
+  have hno : ∀ t ∈ ts, ¬ (t.kind = some .operator ∧ t.text = ['~']) := by
+    intro t ht ⟨hk, hx⟩
+    have := h1 t ht hk
+    simp [hx] at this
+  unfold interceptTokens
+  simp only [replaceZero_id ts hz, insertOneAfter_id true '~' ts h1, findRhsIndex, findRhsAux_none ts hno]
+  have he : ts.isEmpty = false := by cases ts <;> simp_all
+  simp [he, insertOneAfter_id true '|' ts h2]
+
+/-- and with `include_intercept = false` nothing is inserted -/
+theorem no_intercept_plain (ts : List Tok)
+    (h1 : ∀ t ∈ ts, NoSep '~' t) (h2 : ∀ t ∈ ts, NoSep '|' t)
+    (hz : ∀ t ∈ ts, ¬ (t.kind = some .value ∧ t.text = ['0'])) :
+    (interceptTokens false ts).1 = mergeSigns ts := by
+  have hno : ∀ t ∈ ts, ¬ (t.kind = some .operator ∧ t.text = ['~']) := by
+    intro t ht ⟨hk, hx⟩
+    have := h1 t ht hk
+    simp [hx] at this
+  unfold interceptTokens
+  simp only [replaceZero_id ts hz, insertOneAfter_id false '~' ts h1, findRhsIndex, findRhsAux_none ts hno]
+  simp [insertOneAfter_id false '|' ts h2, insertOneAfter]
+
 end FormulaicVerif.Proofs.C01
